@@ -374,6 +374,37 @@ func concretise(c gcase) (full []byte, infoB []byte) {
 		info.set("pieces", []byte("-1:"))
 	case v == "str:short":
 		info.set("pieces", append([]byte("20:"), piecesBytes(10)...))
+	case strings.HasPrefix(v, "strlen:"):
+		// declared-string-length family (spec/MetainfoGen.tla StrLenVars, design model spec/MetainfoScan.tla): the string at
+		// position pos keeps its payload, its length prefix is replaced by the decimal digits of the token
+		at := strings.IndexByte(v, '@')
+		tok, pos := v[7:at], v[at+1:]
+		raw := func(payload []byte) []byte {
+			return append([]byte(strLenTok(tok, len(payload))+":"), payload...)
+		}
+		switch pos {
+		case "lone":
+			fullRaw = append(append([]byte("d"), raw(nil)...), 'e')
+		case "topkey":
+			top = append(top, pair{"\x00raw:" + string(raw([]byte("zz"))), bInt("1")})
+		case "topval":
+			top.set("x", raw([]byte("abc")))
+		case "infokey":
+			info = append(info, pair{"\x00raw:" + string(raw([]byte("zz"))), bInt("1")})
+		case "pieces":
+			info.set("pieces", raw(piecesBytes(maxInt(c.Pcs, 0))))
+		case "name":
+			info.set("name", raw([]byte("n")))
+		case "path":
+			if len(entries) == 0 {
+				entries = append(entries, fileEntry(0, bInt(pl.String()), false))
+				info.del("length")
+				info.set("files", nil)
+			}
+			entries[len(entries)-1].set("path", bList(raw([]byte("f0"))))
+		default:
+			panic("unknown strlen position " + pos)
+		}
 	case v == "pieces:65536" || v == "pieces:65537":
 		n, _ := strconv.Atoi(v[7:])
 		info.set("pieces", bStr(piecesBytes(n*20)))
@@ -480,6 +511,51 @@ func mutate(rng *rand.Rand, b []byte, other []byte) ([]byte, string) {
 		}
 		return res, "splice"
 	}
+}
+
+func maxInt(a, b int) int {
+	if a > b {
+		return a
+	}
+	return b
+}
+
+// strLenTok returns the decimal digits of a declared string length; n is the true payload length.
+func strLenTok(tok string, n int) string {
+	sub := func(a *big.Int, k int64) *big.Int { return new(big.Int).Sub(a, big.NewInt(k)) }
+	switch tok {
+	case "2^31-1":
+		return sub(pow(31), 1).String()
+	case "2^31":
+		return pow(31).String()
+	case "2^32":
+		return pow(32).String()
+	case "2^32+n":
+		return sub(pow(32), int64(-n)).String()
+	case "2^63-1":
+		return sub(pow(63), 1).String()
+	case "2^63":
+		return pow(63).String()
+	case "2^63+n":
+		return sub(pow(63), int64(-n)).String()
+	case "2^64-10^6":
+		return sub(pow(64), 1000000).String()
+	case "2^64-back": // a 64-bit accumulator wraps to minus the width of the length prefix: back onto the same token
+		return sub(pow(64), int64(len(pow(64).String())+1)).String()
+	case "2^64-1":
+		return sub(pow(64), 1).String()
+	case "2^64":
+		return pow(64).String()
+	case "2^64+n": // wraps to the true length
+		return sub(pow(64), int64(-n)).String()
+	case "10^19":
+		return "1" + strings.Repeat("0", 19)
+	case "10^30":
+		return "1" + strings.Repeat("0", 30)
+	case "9x40":
+		return strings.Repeat("9", 40)
+	}
+	panic("bad string length token " + tok)
 }
 
 func minInt(a, b int) int {
